@@ -3,6 +3,7 @@ mod common;
 mod dequex;
 mod model;
 mod scalex;
+mod typex;
 mod schedx;
 mod seqx;
 mod sketchx;
